@@ -1,3 +1,4 @@
+mod c01;
 mod c02;
 mod c03;
 mod c04;
@@ -60,6 +61,7 @@ fn main() {
         "C12" => c12::run(&mut ctx),
         "C06" => c06::run(&mut ctx),
         "C02" => c02::run(&mut ctx),
+        "C01" => c01::run(&mut ctx),
         "C03" => c03::run(&mut ctx),
         "C04" => c04::run(&mut ctx),
         "C05" => c05::run(&mut ctx),
